@@ -324,7 +324,7 @@ def c05_families(rng, tier):
                             "returns normally; a hand with a blank gets value 0 / Invalid", profiles=["release", "chk"], pinned=True))
     sw5 = sweeps(rng, tier, lambda k: "rankp %d" % k, "ok ok ok ok ok ok", "C05_projection + C05_blank_five",
                  "every ranking entry point returns normally; a hand holding a blank gets value 0 / Invalid (constant read off the model)",
-                 sizes=(5,), alphabet="deckblank", name="rankp_multisets", quick_strides={5: (1, 1, 1)}, blank_case="rankp 5 0 0 0 0 0")
+                 sizes=(5,), alphabet="deckblank", name="rankp_multisets", quick_strides={5: (1, 4, 4)}, blank_case="rankp 5 0 0 0 0 0")
     for f in sw5:
         f["profiles"] = ["release", "chk"]
     fams += sw5
@@ -350,7 +350,7 @@ def c05_families(rng, tier):
     for f in sw:
         f["profiles"] = ["release", "chk"]     # the property is about every build profile
     fams += sw
-    st = 32 if tier == "quick" else 1
+    st = 64 if tier == "quick" else 1
     fams.append(fam_sweep("five_ordered_arrays", "rankp 5", 5, 0, "ok ok ok ok ok ok", "C05_projection + C05_blank_five",
                           "ALL 53^5 = 418,195,493 ORDERED five-slot arrays over {52 cards, blank}%s: every entry point returns normally; an "
                           "array holding a blank gets value 0 / Invalid (that constant is read off the model on the all-blank hand)"
@@ -686,9 +686,10 @@ def c06_families(rng, tier):
         fam("hands_rank", sh + structured_fives(rng, "hrank 5") + made_hands(rng, 6, 3000, "hrank 6") + made_hands(rng, 7, 3000, "hrank 7"),
             "hand_rank() / hand_rank_validated() (value, name, class) of seeded and structured five-, six- and seven-card hands",
             categories=cats, pinned=True),
-        fam("invalid_hands_rank", [line("hrank %d" % (5 + j % 3), dup_or_blank_hand(rng, 5 + j % 3)) for j in range(3000)],
+        fam("invalid_hands_rank", [line("hrankv %d" % (5 + j % 3), dup_or_blank_hand(rng, 5 + j % 3)) for j in range(3000)],
             "five-, six- and seven-slot hands holding a blank or a repeated card in a random slot (inside or outside the best five): "
-            "hand_rank_validated() is the Invalid rank of value 0; hand_rank() carries hand_rank_value()", pinned=True),
+            "hand_rank_validated() is the Invalid rank of value 0; hand_rank() is the conversion of hand_rank_value() (projection: "
+            "which value the plain path gives an invalid hand is left open)", pinned=True),
         fam("hrself_projection", [line("hrself %d" % (5 + j % 3), rand_hand(rng, 5 + j % 3)) for j in range(900)],
             "the projection the sweeps use, on model and implementation", pinned=True),
     ] + sweeps(rng, tier, lambda k: "hrself %d" % k, "1 1 1", "C06_projection",
